@@ -49,6 +49,9 @@ Section Attest.
   Variables B S V D H T W E : Type.
 
   Variable kind_of : B -> kind.
+  (** m.Fees != nil (submit_logic_call and user contract uploads; set once the gas estimate is
+      elected, cleared again by a retry) *)
+  Variable fees_present : B -> bool.
   (** the compass call VerifyAgainstTX re-packs: body, message id, elected gas estimate,
       valset, the signatures handed to BuildCompassConsensus *)
   Variable expected_calldata : B -> Z -> Z -> V -> list S -> D.
@@ -116,10 +119,14 @@ Section Attest.
     end.
 
   Definition verify (m : msg) (vs : V) (data : D) : option nat :=
+    let loop := match_prefix (expected_calldata (m_body m) (m_id m) (m_gas m) vs) data
+                             (m_sigs m) (length (m_sigs m)) in
     match kind_of (m_body m) with
     | KUploadCompass => if D_eqb data (expected_deploy (m_body m)) then Some O else None
-    | _ => match_prefix (expected_calldata (m_body m) (m_id m) (m_gas m) vs) data
-                        (m_sigs m) (length (m_sigs m))
+    | KSubmitLogicCall | KUploadUser =>
+      (* since 44704190: a message whose fees were never set matches no transaction *)
+      if fees_present (m_body m) then loop else None
+    | _ => loop
     end.
 
   (* ---------- queue helpers ---------- *)
@@ -260,22 +267,16 @@ Section Attest.
 
   (* ---------- CheckAndProcessAttestedMessages ---------- *)
 
-  (** msgs := GetMessagesFromQueue; for each: attestRouter; the first error aborts the loop --
-      ErrEthTxNotVerified and ErrEthTxFailed included: the wrapper has flushed (the message is
-      gone, the transaction marked) but still returns them.
-      Returns the state and whether the loop ran to the end. *)
-  Fixpoint endblock_ids (s : state) (ids : list Z) (env : Z -> E) : state * bool :=
+  (** msgs := GetMessagesFromQueue; for each: attestRouter; an error is logged and the loop
+      CONTINUES with the next message (since ae1a4d99; before, the first error aborted the loop);
+      the function itself returns nil. *)
+  Fixpoint endblock_ids (s : state) (ids : list Z) (env : Z -> E) : state :=
     match ids with
-    | [] => (s, true)
-    | id :: r =>
-      let '(s', res) := attest s id (env id) in
-      match res with
-      | RSkipped | RNil => endblock_ids s' r env
-      | _ => (s', false)
-      end
+    | [] => s
+    | id :: r => endblock_ids (fst (attest s id (env id))) r env
     end.
 
-  Definition endblock (s : state) (env : Z -> E) : state * bool :=
+  Definition endblock (s : state) (env : Z -> E) : state :=
     endblock_ids s (map m_id (queue s)) env.
 
 End Attest.
